@@ -1,13 +1,7 @@
 import Lean.Data.Json
 import Drivers.Util
-import Drivers.Versions
+import Drivers.Dispatch
 open Lean
-
-def dispatch (m op : String) (a : Json) : Except String Json :=
-  match m with
-  | "versions" => Drivers.Versions.handle op a
-  | "ping" => .ok (DUtil.ok (Json.str "pong"))
-  | _ => .error s!"unknown model {m}"
 
 def answer (line : String) : Json :=
   match Json.parse line with
